@@ -13,11 +13,43 @@ from pcbasic.basic.base import error
 BASICError = error.BASICError
 
 
-def values_env(console=None, double_math=False):
+class StubMemory(object):
+    """Stand-in for DataSegment as seen by StringSpace: fixed layout, never out of memory."""
+    code_start = 4718
+    def __init__(self, var_start=6000, stack_start=60000):
+        self._var_start = var_start
+        self._stack_start = stack_start
+    def stack_start(self):
+        return self._stack_start
+    def var_start(self):
+        return self._var_start
+    def check_free(self, size, err):
+        pass
+
+
+def values_env(console=None, double_math=False, with_strings=False):
     """A real Values object with a real float error handler (no console: errors raise)."""
-    vals = values.Values(None, double_math)
+    space = strings.StringSpace(StubMemory()) if with_strings else None
+    vals = values.Values(space, double_math)
     vals.set_handler(values.FloatErrorHandler(console))
     return vals
+
+
+def new_string(E, vals, content):
+    """A String value holding `content` (bytes / symbolic buffer of concrete length)."""
+    s = E.new(strings.String, None, vals)
+    out = E.call(s.from_str, content)
+    if out.raised:
+        raise Unsupported('from_str raised %r' % (out.exc,))
+    return s
+
+
+def str_cells(E, s):
+    """Content of a String value as cells."""
+    out = E.call(s.to_str)
+    if out.raised:
+        raise Unsupported('to_str raised %r' % (out.exc,))
+    return to_cells(out.value)
 
 
 def cells(buf):
@@ -34,9 +66,7 @@ def snapshot(obj):
 
 def same_bytes(a, b):
     ca, cb = (a if isinstance(a, list) else cells(a)), (b if isinstance(b, list) else cells(b))
-    if len(ca) != len(cb):
-        return False
-    return And(*[x == y for x, y in zip(ca, cb)])
+    return cells_equal(ca, cb)
 
 
 # ---------------------------------------------------------------------------
@@ -44,13 +74,11 @@ def same_bytes(a, b):
 
 def s16(obj):
     """Signed value of a 2-byte little-endian two's-complement buffer."""
-    c = cells(obj)
-    v = c[0] + 256 * c[1]
-    return If(c[1] >= 128, v - 65536, v)
+    v = assemble_le(cells(obj))
+    return If(v >= 32768, v - 65536, v)
 
 def u16(obj):
-    c = cells(obj)
-    return c[0] + 256 * c[1]
+    return assemble_le(cells(obj))
 
 def in_int_range(v):
     return And(v >= -32768, v <= 32767)
@@ -81,12 +109,9 @@ def f_neg(obj):
 def f_man(obj):
     """Integer mantissa with hidden bit: in [2^(p-1), 2^p), p = 24 or 56."""
     c = cells(obj)[:-1]
-    v = 0
-    for i, x in enumerate(c[:-1]):
-        v = v + x * (1 << (8 * i))
-    top = c[-1]
-    top = If(top >= 128, top, top + 128)
-    return v + top * (1 << (8 * (len(c) - 1)))
+    whole = assemble_le(c)
+    hidden = 1 << (8 * len(c) - 1)
+    return If(whole >= hidden, whole, whole + hidden)
 
 def f_is_zero(obj):
     return cells(obj)[-1] == 0
